@@ -26,6 +26,7 @@ META = {
 META["claim"] += " " + 'Also: mixed-case subprotocols; a shared header list reused across connections.'
 META["claim"] += " " + 'Round 3b: WebSocketApp reconnect handshakes judged against the options current at that moment (callable header, app.cookie/app.header changed between attempts); jar cookies plus cookie option.'
 META["claim"] += " " + 'Round 4: transport / TLS / receive-side options next to the request options (sslopt incl. server_hostname, sockopt, enable_multithread, fire_cont_frame, redirect_limit, HTTP proxy with and without credentials): the request - tunnelled when proxied - is unchanged by them.'
+META["claim"] += " " + 'Round 5: the URL reached through a redirect from a URL of the same / of the other scheme; a default Origin, when one is sent, names the requested URL; dict headers with an empty-string value.'
 
 try:
     from websockets.server import ServerProtocol as _WsServer
